@@ -71,9 +71,12 @@ def gen_input(rng, u, defs):
         forms = [
             f"{u}", f"(+ {u} 100000)", f"\"s{u}\"", f"[{u} \"a\"]", f"(do (setv v{u} {u}) [v{u} v{u}])",
             f"#({u} 1)", f"{{\"k\" {u}}}", f"f\"f{{(+ {u} 0)}}\"", f"(setv a{u} 1) [a{u} {u}]", f":kw{u}",
-            f"'(quoted {u})",
+            f"'(quoted {u})", f"(defreader rd{u} '[{u} \"rd\"]) #rd{u}", f"(defreader rn{u} (.parse-one-form &reader)) [#rn{u} {u}]",
         ]
-        return {"kind": "value", "lines": [rng.choice(forms)]}
+        f = rng.choice(forms)
+        if "defreader rd" in f:
+            defs.append(("reader", u))
+        return {"kind": "value", "lines": [f]}
     if r < 0.45:
         forms = [
             f"[{u}\n \"a\"\n ]", f"(do\n  (setv v{u} {u})\n\n  [v{u} 2])", f"\"s{u}\nx\"", f"#[[b{u}\nline2]]",
@@ -101,6 +104,8 @@ def gen_input(rng, u, defs):
             return {"kind": "value", "lines": [f"(f{d} {u})"]}
         if k == "mac":
             return {"kind": "value", "lines": [rng.choice([f"[(m{d}) {u}]", f"(hy.eval '[(m{d}) {u}])"])]}
+        if k == "reader":
+            return {"kind": "value", "lines": [rng.choice([f"[#rd{d} {u}]", f"(do #rd{d}\n  [{u} #rd{d}])"])][0].split("\n")}
         if k == "var":
             return {"kind": "value", "lines": [rng.choice([f"[a {u}]", f"(do (setv b{u} a) [b{u} a {u}])", f"(+ a {u})"])]}
         return {"kind": "fail", "sub": "macro_in_scope",
@@ -122,6 +127,8 @@ def gen_input(rng, u, defs):
         ("pattern", ["(if)"]), ("pattern", [f"(setv x{u})"]), ("pattern", ["(defn)"]), ("pattern", ["(do", "  (if))"]),
         ("require", [f"(require nonexistent-module-{u})"]), ("require", [f"(require hy.core.macros [no-such-macro-{u}])"]),
         ("runtime", [f"(setv ok{u} 1) (/ {u} 0)"]),
+        ("scope", [f"(nonlocal zz{u})"]), ("scope", [f"(let [q{u} 1] (nonlocal zq{u}) q{u})"]), ("scope", ["(do", f"  (nonlocal zd{u}))"]),
+        ("reader", [f"#rd-undefined{u}"]),
     ]
     sub, lines = rng.choice(subs)
     return {"kind": "fail", "sub": sub, "lines": lines}
@@ -171,6 +178,7 @@ class Lockstep:
         self.i = 0          # next input
         self.j = 0          # next line within the input
         self.M = types.ModuleType(modname + "_script")
+        self.reader = self.hy.HyReader()
         self.results = []   # ("val", v) | ("none",) | ("fail",)
         self.viols = []
         self.events = []
@@ -198,7 +206,7 @@ class Lockstep:
         buf = io.StringIO()
         try:
             with contextlib.redirect_stdout(buf), contextlib.redirect_stderr(io.StringIO()):
-                val = hy.eval(hy.read_many(src), self.M.__dict__, module=self.M)
+                val = hy.eval(hy.read_many(src, reader=self.reader), self.M.__dict__, module=self.M)
             out = ("ok", val)
         except BaseException as e:
             out = ("exc", e)
@@ -254,7 +262,7 @@ class Lockstep:
                 self.results.append(("fail",))
                 sub = inp.get("sub")
                 self.faults[{"runtime": "runtime_exception", "reader": "reader_error", "pattern": "pattern_macro_error",
-                             "macro_in_scope": "macro_raises_in_nested_scope", "require": "failing_require"}.get(sub, "runtime_exception")] += 1
+                             "macro_in_scope": "macro_raises_in_nested_scope", "require": "failing_require", "scope": "pattern_macro_error"}.get(sub, "runtime_exception")] += 1
             elif outcome[1] is None:
                 self.results.append(("none",))
             else:
